@@ -55,9 +55,9 @@ type Hooks struct {
 	OverlapAt string
 	// EndedAfterTerminate: name of a callback that was still in progress when terminate was entered
 	EndedAfterTerminate string
-	mu        sync.Mutex
-	Callbacks []string // callback log: names in order
-	TermCount atomic.Int32
+	mu                  sync.Mutex
+	Callbacks           []string // callback log: names in order
+	TermCount           atomic.Int32
 }
 
 // Probe is the actor type used by every workload.
@@ -74,9 +74,9 @@ func ProbeFactory(h *Hooks) gen.ProcessFactory {
 // inst is the per-process part of the instrumentation.
 type inst struct {
 	termEntered atomic.Bool
-	depth   atomic.Int32
-	entered atomic.Int32
-	counter int // deliberately non-atomic read-modify-write
+	depth       atomic.Int32
+	entered     atomic.Int32
+	counter     int // deliberately non-atomic read-modify-write
 }
 
 func (h *Hooks) newInst() *inst {
